@@ -316,7 +316,12 @@ func (g *G) sender(t *tenant) string {
 func (g *G) settleOp() {
 	r := g.r
 	t := g.pickTenant()
-	switch r.N(11) {
+	mintable := t.method != "native"
+	k := r.N(11)
+	if mintable && k == 10 {
+		k = 0
+	}
+	switch k {
 	case 10:
 		g.inject(t)
 	case 0:
@@ -1118,9 +1123,30 @@ func (g *G) malformedOp() {
 	r := g.r
 	t := g.pickTenant()
 	admin := rng.Pick(r, t.admins)
-	switch r.N(10) {
+	mintable := t.method != "native"
+	k := r.N(11)
+	if mintable && k == 10 {
+		k = 0
+	}
+	switch k {
+	case 10:
+		// a small record and one of the largest amount there is, recorded in one block for an NFT with a known owner: they come due
+		// together, the first is paid, the second cannot be - and sums over both must not be formed carelessly
+		g.emit("setowner %s %s %s", e(contracts[0]), e(tokens[0]), accs[6])
+		g.emit("deposit %s %d 50 %s", admin, t.id, e(t.denom))
+		for i, amt := range []string{"7", "115792089237316195423570985008687907853269984665640564039457584007913129639935", "115792089237316195423570985008687907853269984665640564039457584007913129639930"} {
+			g.emit("record %s %d %s %s %s %s %s %s", admin, t.id, e(fmt.Sprintf("big%d-%d", g.height, i)), amt, e(t.denom), e(world.ThisChain), e(contracts[0]), e(tokens[0]))
+		}
+		for i := 0; i < 4; i++ {
+			g.block()
+		}
 	case 0:
 		amt := rng.Pick(r, []string{"-5", "0", "-1", "9223372036854775808", "10000000000000000000", "115792089237316195423570985008687907853269984665640564039457584007913129639935", "nil"})
+		if mintable && len(amt) > 40 {
+			// what a tenant's token contract does when its total supply would pass 2^256 is the contract's arithmetic, not the
+			// chain's: no history mints that much
+			amt = "10000000000000000000"
+		}
 		g.emit("record %s %d %s %s %s %s %s %s", admin, t.id, e(fmt.Sprintf("m%d", r.N(100))), amt, e(t.denom), e("1"), e(contracts[0]), e(tokens[0]))
 		g.ext = append(g.ext, extNft{"1", contracts[0], tokens[0]})
 	case 1:
